@@ -399,6 +399,90 @@ fn sequential_case(ctx: &mut Ctx, case: u64, rng: &mut Rng) {
                 }
                 continue;
             }
+            // store-wide reads through the handle: they, too, are answered in request order and
+            // reflect every earlier request (added in round 7 after the coverage run showed that no
+            // history ever issued them)
+            if rng.chance(1, 12) {
+                ctx.count("store_wide_reads", 1);
+                match rng.below(4) {
+                    0 => {
+                        let (tx, mut rx) = irpc::channel::mpsc::channel::<iroh_docs::api::RpcResult<iroh_docs::api::protocol::ListResponse>>(64);
+                        let _ = h.list_replicas(tx).await;
+                        let mut got = BTreeMap::new();
+                        while let Ok(Some(Ok(r))) = rx.recv().await {
+                            got.insert(r.id, format!("{:?}", r.capability));
+                        }
+                        let mut want = BTreeMap::new();
+                        for (d, u) in docs.iter().enumerate() {
+                            match specs[d].cap {
+                                Cap::None => {}
+                                Cap::Read => {
+                                    want.insert(u.ns.id(), "Read".to_string());
+                                }
+                                Cap::Write => {
+                                    want.insert(u.ns.id(), "Write".to_string());
+                                }
+                            }
+                        }
+                        trace.push(format!("list documents -> {}", got.len()));
+                        if got != want {
+                            ctx.violation(case, "document-list-does-not-reflect-earlier-requests", json!({"got": got.values().collect::<Vec<_>>(), "expected": want.values().collect::<Vec<_>>(), "trace": trace}));
+                            return;
+                        }
+                    }
+                    1 => {
+                        let (tx, mut rx) = irpc::channel::mpsc::channel::<iroh_docs::api::RpcResult<iroh_docs::api::protocol::AuthorListResponse>>(64);
+                        let _ = h.list_authors(tx).await;
+                        let mut got = std::collections::BTreeSet::new();
+                        while let Ok(Some(Ok(r))) = rx.recv().await {
+                            got.insert(r.author_id.to_bytes());
+                        }
+                        let want: std::collections::BTreeSet<[u8; 32]> = docs[0].authors.iter().enumerate().filter(|(i, _)| author_known[*i]).map(|(_, a)| a.id().to_bytes()).collect();
+                        trace.push(format!("list authors -> {}", got.len()));
+                        if got != want {
+                            ctx.violation(case, "author-list-does-not-reflect-earlier-requests", json!({"got": got.len(), "expected": want.len(), "trace": trace}));
+                            return;
+                        }
+                    }
+                    2 => {
+                        let got: Option<std::collections::BTreeSet<[u8; 32]>> = match h.content_hashes().await {
+                            Ok(it) => it.map(|r| r.ok().map(|h| *h.as_bytes())).collect(),
+                            Err(_) => None,
+                        };
+                        let empty = *iroh_blobs::Hash::EMPTY.as_bytes();
+                        let mut want = std::collections::BTreeSet::new();
+                        for sp in specs.iter() {
+                            for e in sp.entries.plain() {
+                                want.insert(e.hash);
+                            }
+                        }
+                        want.remove(&empty);
+                        trace.push("content hashes".to_string());
+                        match got {
+                            Some(mut g) => {
+                                g.remove(&empty);
+                                if g != want {
+                                    ctx.violation(case, "content-hashes-do-not-reflect-earlier-requests", json!({"got": g.len(), "expected": want.len(), "trace": trace}));
+                                    return;
+                                }
+                            }
+                            None => {
+                                ctx.violation(case, "content-hashes-failed", json!({"trace": trace}));
+                                return;
+                            }
+                        }
+                    }
+                    _ => {
+                        let r = h.flush_store().await;
+                        trace.push(format!("flush -> {}", r.is_ok()));
+                        if r.is_err() {
+                            ctx.violation(case, "flush-failed", json!({"trace": trace}));
+                            return;
+                        }
+                    }
+                }
+                continue;
+            }
             // sometimes a pipelined batch: several requests are sent without waiting for the replies
             // (they are sent in order, so the replies must be those of the sequential order)
             if rng.chance(1, 6) {
